@@ -75,6 +75,10 @@ def snapshot_repo(dest: Optional[str] = None) -> str:
 def _cache_dir() -> str:
     d = os.path.join(CACHE, repo_hash())
     os.makedirs(d, exist_ok=True)
+    try:
+        os.utime(d)          # most recently used caches survive pruning
+    except OSError:
+        pass
     return d
 
 
